@@ -554,6 +554,7 @@ fn run_search(
                     Err(e) => return Err(Violation::new(prop, "query.returns", site, "query-error-or-panic", format!("`{gt}`: {e}"), step)),
                 };
                 queries += 1;
+                obs.fp_str(&format!("{}|{:?}", out.provable, out.after));
                 judge(prop, site, types, rules, goal, &before, &out, max_depth, strategy, max_solutions, step, obs, "long-lived engine", )?;
                 // a freshly built engine on a deep copy of the facts as they stood
                 let fresh_here = {
